@@ -44,10 +44,10 @@ Proof. exact segregator_decision. Qed.
 Print Assumptions C09_segregator_decision_ignores_alignment_and_pointer.
 
 (* the source: tracked_allocator (throwing and composable members, tracker told once, composable only on success),
-   aligned_allocator, allocator_storage, the type-erased basic_allocator, binary_segregator, memory_resource_adapter and std_allocator have the call shapes
+   aligned_allocator, allocator_storage, the type-erased basic_allocator, binary_segregator, memory_resource_adapter, std_allocator and the six deleter classes (node by sizeof / alignof of the value type, array by the stored element count, polymorphic by the stored size and alignment) have the call shapes
    the model's wrappers stand for *)
 Theorem C09_wrapper_members_have_the_modelled_shape :
-  tracked_ok && aligned_ok && storage_forwards_ok && segregator_ok && resource_adapter_ok && std_allocator_ok && any_ok = true.
+  tracked_ok && aligned_ok && storage_forwards_ok && segregator_ok && resource_adapter_ok && std_allocator_ok && any_ok && deleters_ok = true.
 Proof. exact C09_shapes_hold. Qed.
 Print Assumptions C09_wrapper_members_have_the_modelled_shape.
 
